@@ -29,4 +29,4 @@ META = dict(
     technique="runtime monitoring: reference-model oracle after every operation + ASan/UBSan + canaries",
 )
 
-CFG["rule"] += (" " + 'Additions: the comparator style is drawn per case (three-way, boolean a > b, scaled difference, INT_MIN/INT_MAX); stale aws_last_error()/errno between operations. One removal in four passes a by-value copy of the handle (the parameter is a pointer to const); the registered handle must be the one that ends up marked and the copy must not be written.')
+CFG["rule"] += (" " + 'Additions: the comparator style is drawn per case (three-way, boolean a > b, scaled difference, INT_MIN/INT_MAX); stale aws_last_error()/errno between operations. One removal in four passes a by-value copy of the handle (the parameter is a pointer to const); the registered handle must be the one that ends up marked and the copy must not be written. Once per -O2 stage run: a static queue of 2^31+2 one-byte elements built through the API (2^31-1 equal elements, then 2, 1, 9), one pop that sends an element down to slot 2^31, heap order and contents checked over the whole array.')
